@@ -63,6 +63,7 @@ PROPS = {
              'enum stages = every history of the given length for depth in {1,2,3,31,32} (31/32 pre-cycled so the '
              'wrap is crossed). Non-trivial: index wraps at depth-1 with >=2 messages outstanding, or depth in '
              '{1,32}, or slack>0. Distinct = distinct tapes.',
+        rule_more='Later additions: the static initialiser macro is handed expressions (a + b), not identifiers; one case in four places the caller\'s memory 1-3 bytes into a heap block (no alignment promise); rolling pre-cycles keep the queue full while counters wrap.',
         stages=[
             dict(h='mqseq', mode='rc', what='random geometries and histories', quick=dict(cases=100000, len=330),
                  thorough=dict(cases=5000000, len=330)),
@@ -75,7 +76,7 @@ PROPS = {
         require={'wrapped-with-two-outstanding': 1000, 'depth-1': 1000, 'depth-32': 1000, 'slack': 1000,
                  'send-out-of-claim-order-possible': 1000,
                  'long-life (>= 256 messages before the generated operations)': 1000,
-                 'long-life (>= 65536 messages before the generated operations)': 200, 'pre-cycled-with-the-queue-full': 1000},
+                 'long-life (>= 65536 messages before the generated operations)': 200, 'pre-cycled-with-the-queue-full': 1000, 'caller-memory-not-4-byte-aligned': 1000},
         assumptions=['releases follow receives in receive order (the only order the API documents)'],
     ),
     'C19': dict(
@@ -109,13 +110,14 @@ PROPS = {
              'moving the internal counter to 1..600 below its 2^31 fold, congruent mod 256; optional final sweep '
              'of lines -2..258 and the dump. Non-trivial: a read after >=257 messages or after the fold was crossed. '
              'Distinct = distinct tapes. Thorough adds a hook-free run of 2^31+1000 real mlog calls.',
+        rule_more='Later additions: the hook also moves the counter next to multiples of 2^16, 2^24 and 2^30 (congruent mod 256).',
         stages=[
             dict(h='mlog', mode='rc', what='random histories', quick=dict(cases=300000, len=200),
                  thorough=dict(cases=6000000, len=200)),
             dict(h='mlog', mode='custom', what='hook-free 2^31+1000 messages', tiers=('thorough',), workers=1,
                  thorough=dict(timeout=3000, watchdog=0)),
         ],
-        require={'argument-wider-than-32-bits': 1000, 'read-after-257-messages': 1000, 'read-across-the-2^31-fold': 500, 'nice-dropped': 100,
+        require={'argument-wider-than-32-bits': 1000, 'counter-moved-next-to-a-multiple-of-2^16': 1000, 'read-after-257-messages': 1000, 'read-across-the-2^31-fold': 500, 'nice-dropped': 100,
                  'nice-recorded': 100, 'clear': 1000},
         assumptions=['the harness formats the expected text with snprintf and the same literal format strings',
                      'mlog_verif_set_count (hook) only moves the counter to a value congruent mod 256; the thorough tier crosses the fold without it'],
@@ -130,7 +132,7 @@ PROPS = {
              'safety (range, termination bound, -1 sticky, resume pointer inside the string, ASan on an exact heap '
              'block). Non-trivial: arrays > 16 bytes, multi-line prefixed texts, strings of >= 2 characters. '
              'Distinct = distinct tapes; enum stage = every string of length 6 (8 thorough) over the alphabet {0,x,a,F,:,newline,space,g}.',
-        rule_more='Later additions: runs of 254..2500 blank lines between data lines; very rarely dumps of 1 MiB and 5 MiB.',
+        rule_more='Later additions: runs of 254..2500 blank lines between data lines; very rarely dumps of 1 MiB and 5 MiB. One grammar text in five is parsed in storage that has just been parsed with other (colon-free) contents.',
         stages=[
             dict(h='hex', mode='rc', what='random arrays, grammar texts, arbitrary strings',
                  quick=dict(cases=200000, len=260), thorough=dict(cases=5000000, len=260)),
@@ -139,7 +141,7 @@ PROPS = {
             dict(h='hex', mode='fuzz', what='libFuzzer over arrays, grammar texts and arbitrary strings',
                  quick=dict(runs=600000, max_len=300, len=260), thorough=dict(runs=40000000, max_len=300, len=260, timeout=3000)),
         ],
-        require={'round-trip-more-than-one-line': 1000, 'dump-of-256-bytes-or-more': 500, 'dump-of-65535-bytes-or-more': 100, 'run-of-999-or-more-blank-lines': 100, 'grammar-multi-line-with-prefix': 1000, 'arbitrary-string': 1000,
+        require={'round-trip-more-than-one-line': 1000, 'dump-of-256-bytes-or-more': 500, 'dump-of-65535-bytes-or-more': 100, 'run-of-999-or-more-blank-lines': 100, 'text-in-storage-parsed-before-with-other-contents': 1000, 'grammar-multi-line-with-prefix': 1000, 'arbitrary-string': 1000,
                  'trailing-junk': 1000, 'grammar-without-prefix': 1000},
         assumptions=['texts with an address prefix on only some lines are outside the stated grammar ("on each line") and are generated for the safety oracle only',
                      'glibc isspace/isxdigit accept negative char values (bytes >= 0x80) without faulting'],
@@ -155,9 +157,9 @@ PROPS = {
              'random shapes <= 12 nodes, large/degenerate shapes up to 300 nodes (spines, zig-zag, skewed, full), and '
              'left/right-leaning list spines of 0..20 list nodes (list iterator vs bintree_traverse_list). '
              'Non-trivial: >= 3 nodes with a two-child node, or a spine of >= 2 list nodes. Distinct = distinct tapes.',
-        rule_more='Later additions: custom stage = chains, zig-zag, comb and list spines of 65536..131075 nodes (iterators vs an explicit-stack traversal, links restored, bintree_free exactly once and children first); the two slowest shapes run in the thorough tier only.',
+        rule_more='Later additions: custom stage = chains, zig-zag, comb and list spines of 65536..131075 nodes (iterators vs an explicit-stack traversal, links restored, bintree_free exactly once and children first); the two slowest shapes run in the thorough tier only. Further deep shapes: a root whose left child heads a right chain of 5000 / 70000 nodes, the mirror image, a comb of 300 chains of 300; right-leaning list spines may end in an empty list node.',
         stages=[
-            dict(h='bintree', mode='custom', what='deep shapes: chains, zig-zag, comb, list spines beyond 2^16', workers=9, common=dict(watchdog=300), quick=dict(params=dict(heavy=0)), thorough=dict(params=dict(heavy=1))),
+            dict(h='bintree', mode='custom', what='deep shapes: chains, zig-zag, comb, list spines beyond 2^16', workers=13, common=dict(watchdog=300), quick=dict(params=dict(heavy=0)), thorough=dict(params=dict(heavy=1))),
             dict(h='bintree', mode='enum', what='all shapes, malloc-per-node', params=dict(kind=0, mis=0),
                  common=dict(split=8), quick=dict(params=dict(nodes=12)), thorough=dict(params=dict(nodes=14))),
             dict(h='bintree', mode='enum', what='all shapes, 2-byte-aligned nodes', params=dict(kind=0, mis=1),
@@ -166,7 +168,7 @@ PROPS = {
             dict(h='bintree', mode='rc', what='random / large / degenerate shapes and spines',
                  quick=dict(cases=100000, len=700, maxsize=100), thorough=dict(cases=2000000, len=700)),
         ],
-        require={'deep-shape (depth >= 65536)': 7, 'empty-tree': 1, 'single-node': 1, 'two-byte-aligned-nodes': 1000, 'large-shape': 500,
+        require={'deep-shape (depth >= 65536)': 11, 'right-leaning-spine-ending-in-an-empty-list-node': 10, 'empty-tree': 1, 'single-node': 1, 'two-byte-aligned-nodes': 1000, 'large-shape': 500,
                  'left-leaning-spine': 20, 'right-leaning-spine': 20, 'free-every-node-and-side': 1000},
         assumptions=['list spines have non-NULL, non-list elements and lean one way (as the header draws them)',
                      'the 2-byte-aligned variant is built with UBSan alignment checks off: the misalignment is the harness choice, inside the stated domain',
@@ -251,7 +253,7 @@ PROPS = {
              'enum stage = every stream of the given length over {a, space, single quote, double quote, BS, ^C, NL} with command '
              '"a" registered. Non-trivial: a line with a quoted argument, an edit keystroke or length>=70; a registration case '
              'that reaches the full table; an injection longer than the ring. Distinct = distinct tapes.',
-        rule_more='Later additions: two commands in five overwrite all or part of the scratch area after parsing their arguments (console.h documents that use); every dispatched command must have run to completion when the console goes idle.',
+        rule_more='Later additions: two commands in five overwrite all or part of the scratch area after parsing their arguments (console.h documents that use); every dispatched command must have run to completion when the console goes idle. One segment in thirteen is a line that fills the buffer exactly (79 characters) followed by backspace, Ctrl-C, a letter, a blank or a newline.',
         stages=[
             dict(h='console', mode='rc', what='random streams, three delivery mechanisms, registration',
                  quick=dict(cases=100000, len=600), thorough=dict(cases=3000000, len=600)),
@@ -260,7 +262,7 @@ PROPS = {
             dict(h='console', mode='fuzz', what='libFuzzer over console streams (all delivery mechanisms)',
                  quick=dict(runs=200000, max_len=700, len=600), thorough=dict(runs=10000000, max_len=700, len=600, timeout=3000)),
         ],
-        require={'exact-dispatch-checked': 5000, 'exact-four-tokens': 500, 'line-with-quoted-argument': 5000, 'edit-backspace': 5000,
+        require={'buffer-filled-exactly-then-one-more-character': 1000, 'exact-dispatch-checked': 5000, 'exact-four-tokens': 500, 'line-with-quoted-argument': 5000, 'edit-backspace': 5000,
                  'edit-ctrl-c': 2000, 'line-completed-by-buffer-fill': 300, 'console_eval': 3000, 'registration-reached-full-table': 500,
                  'via-console_putchar': 5000, 'via-console_process': 5000, 'tier1-only-line': 2000},
         assumptions=['tokenizer corners the statement does not pin down get the tier-1 clauses only: leading white space, a quote as first '
@@ -476,7 +478,7 @@ PROPS = {
              'sequential epilogue (kill all, fibre_run in a generated order, four passes) dispatches exactly in that order. enum '
              'stages enumerate every placement for fixed scripts. Non-trivial: an interrupt strictly inside fibre_scheduler_next / '
              'fibre_run / fibre_kill / fibre_run_atomic, or nested between another handler\'s claim and send. Distinct = distinct tapes.',
-        rule_more='Later additions: event queue depth 1-3; one case in eight first passes 245-275 events through the queue sequentially; the sleeper may call fibre_run before arming its timeout.',
+        rule_more='Later additions: event queue depth 1-3; one case in eight first passes 245-275 events through the queue sequentially; the sleeper may call fibre_run before arming its timeout. Events of 4096 bytes in 17-20 slots one case in sixteen.',
         stages=[
             dict(h='fibconc', mode='enum', what='ISR, script %d, handlers %s, %s granularity' % (sc, hs, 'every-access' if ea else 'atomic'),
                  params=dict(dict(mode=1, script=sc, every_access=ea, oracle=6, handlers=len(hs), evdepth=ed), **{'h%d' % i: v for i, v in enumerate(hs)}),
@@ -497,7 +499,7 @@ PROPS = {
             dict(h='fibconc', mode='fuzz', what='libFuzzer (coverage-guided) over scripts, handlers and placements', params=dict(oracle=6),
                  quick=dict(runs=300000, max_len=500, len=500), thorough=dict(runs=30000000, max_len=500, len=500, timeout=3000)),
         ],
-        require={'event-queue-warmed-up (>= 245 events before the scenario)': 1000, 'sleeper-calls-fibre_run-before-arming-its-timeout': 1000, 'interrupt-inside-fibre_scheduler_next': 1000, 'interrupt-inside-fibre_run': 200, 'interrupt-inside-fibre_kill': 100,
+        require={'event-queue-warmed-up (>= 245 events before the scenario)': 1000, 'event-slots-beyond-64-KiB': 1000, 'sleeper-calls-fibre_run-before-arming-its-timeout': 1000, 'interrupt-inside-fibre_scheduler_next': 1000, 'interrupt-inside-fibre_run': 200, 'interrupt-inside-fibre_kill': 100,
                  'interrupt-inside-fibre_run_atomic': 50, 'interrupt-nested-between-claim-and-send': 100, 'event-queue-full-path': 500,
                  'event-delivered': 1000, 'threads-mode': 1000, 'console-line-delivered': 1000, 'console-input-interleaved-with-scheduler': 1000},
         assumptions=['"is dispatched by a subsequent call" is checked as bounded eventuality: within 4*(3+requests)+8+yields passes after the last interrupt',
@@ -554,7 +556,7 @@ PROPS = {
              'a second round); its per-invocation trace (events, return code) must equal that of a reference interpreter over the same '
              'AST in which every thread is a Python generator. Non-trivial: a blocking point executed inside a loop inside a '
              'conditional, or a child spawned more than once, or a failing child. Distinct = distinct ASTs (SHA-1).',
-        rule_more='Later additions: the arguments of PT_WAIT_UNTIL / PT_EXIT_ON / PT_FAIL_ON are, 3 times in 8, the same truth value as a 64-bit word with a zero low half, a double below 1, or a pointer.',
+        rule_more='Later additions: the arguments of PT_WAIT_UNTIL / PT_EXIT_ON / PT_FAIL_ON are, 3 times in 8, the same truth value as a 64-bit word with a zero low half, a double below 1, or a pointer. PT_SPAWN_AND_CHECK / PT_CALL statements are emitted without braces of the generator\'s own, also as the unbraced body of else-less ifs and of loops.',
         stages=[
             dict(h='pt', mode='script', what='generated programs vs reference interpreter',
                  quick=dict(params=dict(cases=4800), timeout=900), thorough=dict(params=dict(cases=120000), timeout=3400)),
